@@ -155,6 +155,30 @@ def unit_inventory(eng):
         return None
     lo = [x for x in frames.syntactic_scan(pkg, locale_dependent_open) if x[0] not in ("devices",)]
     ob(obs, unit, func, "every-text-file-is-opened-with-an-explicit-encoding(the locale of the process is not an input)", not lo, lo, kind="closed")
+    # objects built at import time (the operand stubs and instruction entries of insns.init(), Metacommand objects, operator classes) live for the
+    # whole process: a method that stores into 'self' there carries state from one assembly into the next
+    IMPORT_TIME_MODULES = ("insns", "metacommand_impl", "operators", "builtins", "architecture", "radix50", "formats", "bk_wav", "bk_encoding", "containers")
+    stores = []
+    for mname in IMPORT_TIME_MODULES:
+        tree_ = mods.get(mname)
+        if tree_ is None:
+            continue
+        for cls in [n_ for n_ in ast.walk(tree_) if isinstance(n_, ast.ClassDef)]:
+            if mname == "containers":
+                continue          # CaseInsensitiveDict instances are created per Compiler
+            for fn in [n_ for n_ in cls.body if isinstance(n_, ast.FunctionDef) and n_.name != "__init__"]:
+                for node in ast.walk(fn):
+                    tg = node.targets if isinstance(node, ast.Assign) else [node.target] if isinstance(node, (ast.AugAssign, ast.AnnAssign)) else []
+                    for x in tg:
+                        b = x
+                        while isinstance(b, (ast.Subscript, ast.Attribute)) and not (isinstance(b, ast.Attribute) and isinstance(b.value, ast.Name)):
+                            b = b.value
+                        if isinstance(b, ast.Attribute) and isinstance(b.value, ast.Name) and b.value.id == "self":
+                            stores.append((mname, cls.name, fn.name, b.attr, node.lineno))
+                    if isinstance(node, ast.Call) and isinstance(node.func, ast.Attribute) and node.func.attr in ("append", "add", "update", "setdefault", "pop", "extend", "clear", "insert", "remove") \
+                            and isinstance(node.func.value, ast.Attribute) and isinstance(node.func.value.value, ast.Name) and node.func.value.value.id == "self":
+                        stores.append((mname, cls.name, fn.name, node.func.value.attr + "." + node.func.attr, node.lineno))
+    ob(obs, unit, func, "no-method-of-an-object-built-at-import-time(operand stubs, instruction entries, metacommands, operators)-stores-into-self", not stores, stores)
     ps = frames.syntactic_scan(pkg, process_state)
     ob(obs, unit, func, "no-call-or-store-that-changes-interpreter-or-process-wide-state(recursion limit, cwd, environment, locale, warnings filters, signal handlers, sys.*)", not ps, ps)
     nd = [x for x in frames.syntactic_scan(pkg, nondeterminism) if x[0] not in ("devices",)]
@@ -258,7 +282,7 @@ def run(src):
     except Exception as e:
         return ["crash", type(e).__name__, diags]
 PROBE = "a: mov #a, r0\n1$: sob r0, 1$\n .word a, b-a, .\n .ascii \"hi\"\nb: .byte 1, 2\n x = b - a\n .word x\n .repeat 2 { nop }\n br a\n .word undefined_sym\n"
-PROBE_OK = PROBE.replace(" .word undefined_sym\n", "") + "same5 = 5\nalso5 = 5\nfive = 5\nmid: other: last:\n zeta = 7\n alpha = 7\n"
+PROBE_OK = PROBE.replace(" .word undefined_sym\n", "") + " clr @r0\n mov @r1, @r2\n tstf @r3\n .byte\n emt #1\n trap #2\n" + "same5 = 5\nalso5 = 5\nfive = 5\nmid: other: last:\n zeta = 7\n alpha = 7\n"
 POOL = ["nop\n", "mov r0\n", ".word 200000\n", "a: a:\n", "br 1000\n", ".link 100\n.link 200\n", "clr (%%y)+\ny=1\n", ".align 0\n",
         ".blkb 100000\n.blkb 100000\nmake_bin\n", ".rad50 \"#\"\n", ".error oops\n", "l: .word l\n .even\n", ".repeat 3 { .word . }\n", "mov (, r0\n", "\"unterminated\n"]
 # programs that fail late (at link time, with many symbols), deep expressions and long dependency chains: histories that stress interpreter-level state
@@ -277,6 +301,7 @@ open(os.path.join(HDIR, "strings.mac"), "w").write('.ascii "a\\qb"\n.word 1\n')
 open(os.path.join(HDIR, "nums.mac"), "w").write(".word 8\n.word 1/0\n")
 open(os.path.join(HDIR, "chars.mac"), "w").write(".word 'я, 10\n")
 open(os.path.join(HDIR, "once.mac"), "w").write(".once\nk1 = 123\n.word k1\n")
+POOL += ["clr @r5\nmov @r0, @r1\n", "tstf @r2\nclr @r1\n.word\nemt #3\n", "clr @r5\nmov (, r0\n"]
 POOL += ['.once\nnop\n', '.include "%%s/once.mac"\n.include "%%s/once.mac"\n.word k1 + 1\n' %% (HDIR, HDIR), '.once\nmov r0\n']
 POOL += ['.include "%%s/strings.mac"\nnop\n' %% HDIR, '.include "%%s/nums.mac"\n' %% HDIR, '.include "%%s/chars.mac"\nhalt\n' %% HDIR]
 PROBE_INC = 'nop\n.include "%%s/strings.mac"\n.include "%%s/nums.mac"\n.include "%%s/chars.mac"\n' %% (HDIR, HDIR, HDIR)
